@@ -891,7 +891,7 @@ def rule_uniq4(ctx: Ctx) -> RuleResult:
 
     for gi, g in enumerate(steps):
         for n in ast.walk(g.node):
-            if isinstance(n, ast.Call) and isinstance(n.func, ast.Attribute) and n.args and ".name" in norm(n.args[0]) and (
+            if isinstance(n, ast.Call) and isinstance(n.func, ast.Attribute) and n.args and (
                     "reserve" in n.func.attr or n.func.attr in ("setdefault", "add")):
                 lp = None
                 for x in ast.walk(g.node):
@@ -899,8 +899,16 @@ def rule_uniq4(ctx: Ctx) -> RuleResult:
                         lp = x
                 if lp is None:
                     continue
-                kind = "descendants" if _transitive_helper(lp.iter, g.module) else (
-                    "children" if "child_pointers" in norm(lp.iter) else ("layout" if "nested" in norm(lp.iter) else None))
+                walked = lp.iter
+                if ".name" not in norm(n.args[0]):
+                    # the names projected first: `for name in [m.name for m in <models>]: reserve(name)`
+                    if not (isinstance(lp.target, ast.Name) and norm(n.args[0]) == lp.target.id and isinstance(walked, (ast.ListComp, ast.GeneratorExp))
+                            and len(walked.generators) == 1 and not walked.generators[0].ifs and isinstance(walked.generators[0].target, ast.Name)
+                            and norm(walked.elt) == f"{walked.generators[0].target.id}.name"):
+                        continue
+                    walked = walked.generators[0].iter
+                kind = "descendants" if _transitive_helper(walked, g.module) else (
+                    "children" if "child_pointers" in norm(walked) else ("layout" if "nested" in norm(walked) else None))
                 if kind is None:
                     continue
                 rank = {"descendants": 3, "children": 2, "layout": 1}[kind]
